@@ -355,6 +355,80 @@ func runC03(c *Ctx, r *Report) {
 	r.Check(leak == "", "R-C03.3", r.Key("R-C03.3", tr, "mark-after-push", ""), tr.Body.Pos(),
 		"every pushed predecessor is marked visited before the next pop", "a pushed predecessor can reach the next pop (at "+leak+") without being marked visited: it is pushed again through another successor")
 
+	// every popped entry is emitted and marked visited before its predecessors are pushed (a root that is also a
+	// predecessor of another root is otherwise taken twice and counted twice against the requested amount)
+	{
+		var popped types.Object
+		walkNoLit(tr.Body, func(n ast.Node) bool {
+			if as, ok := n.(*ast.AssignStmt); ok && len(as.Lhs) == 1 && len(as.Rhs) == 1 {
+				if _, ok := isPop(ast.Unparen(as.Rhs[0])); ok {
+					if id, ok := as.Lhs[0].(*ast.Ident); ok {
+						popped = p.ObjOf(tr, id)
+					}
+				}
+			}
+			return true
+		})
+		key := r.Key("R-C03.3", tr, "popped-emitted-marked", "")
+		if popped == nil {
+			r.Violate("R-C03.3", key, tr.Body.Pos(), "no variable receives the entry taken from the stack")
+		} else {
+			pf := &Flow{P: p, Fn: tr, Entry: Facts{}}
+			pf.Node = func(n ast.Node, f Facts) {
+				walkNoLit(n, func(nd ast.Node) bool {
+					switch x := nd.(type) {
+					case *ast.AssignStmt:
+						for i, l := range x.Lhs {
+							if id, ok := ast.Unparen(l).(*ast.Ident); ok && p.ObjOf(tr, id) == popped && i < len(x.Rhs) {
+								delete(f, "emitted")
+								delete(f, "marked")
+							}
+							if ix, ok := ast.Unparen(l).(*ast.IndexExpr); ok {
+								if id, ok := ast.Unparen(ix.X).(*ast.Ident); ok && p.ObjOf(tr, id) == visited {
+									if v := entryVarIn(p, tr, ix.Index); v != nil && types.Object(v) == popped {
+										f["marked"] = true
+									}
+								}
+							}
+						}
+					case *ast.CallExpr:
+						if se, ok := ast.Unparen(x.Fun).(*ast.SelectorExpr); ok && se.Sel.Name == "Set" && len(x.Args) == 2 {
+							if id, ok := ast.Unparen(x.Args[1]).(*ast.Ident); ok && p.ObjOf(tr, id) == popped {
+								f["emitted"] = true
+							}
+						}
+					}
+					return true
+				})
+			}
+			pf.Run()
+			npush := 0
+			bad := ""
+			pf.Visit(func(_ *cfgBlk, n ast.Node, before Facts) {
+				walkNoLit(n, func(nd ast.Node) bool {
+					as, ok := nd.(*ast.AssignStmt)
+					if !ok {
+						return true
+					}
+					for i, l := range as.Lhs {
+						if !isStack(l) || i >= len(as.Rhs) {
+							continue
+						}
+						if call, ok := ast.Unparen(as.Rhs[i]).(*ast.CallExpr); ok && p.Builtin(tr, call) == "append" {
+							npush++
+							if !before["emitted"] || !before["marked"] {
+								bad = fmt.Sprintf("%s (emitted=%v, marked=%v)", p.Pos(as.Pos()), before["emitted"], before["marked"])
+							}
+						}
+					}
+					return true
+				})
+			})
+			r.Check(bad == "" && npush > 0, "R-C03.3", key, tr.Body.Pos(), "the entry taken from the stack is emitted and marked visited before its predecessors are pushed",
+				"predecessors are pushed at "+bad+" although the entry just taken from the stack was not both emitted and marked visited: a start entry that is also in the causal past of another start entry is taken from the stack twice — it is counted twice against the requested amount (the iterator returns fewer distinct entries than asked)")
+		}
+	}
+
 	// R-C03.5
 	vals := p.FuncI("", "IPFSLog", "values")
 	headsF, entriesF := p.Field("", "IPFSLog", "heads"), p.Field("", "IPFSLog", "Entries")
